@@ -157,7 +157,10 @@ def check_labelled_poly(algo, O, S, leafmap, leafsyn, costs, policy, session=Non
     if session is not None:
         inp, onode, snode = session.set(leafmap, costs, leafsyn)
     else:
-        inp, onode, snode = A.build_input(O, S, leafmap, costs, leafsyn, unordered=not is_ord)
+        # ancestors already carry names of the auto-label form (O#/S#), as after label_internal() or a pass through the CLI
+        inp, onode, snode = A.build_input(O, S, leafmap, costs, leafsyn, unordered=not is_ord,
+                                          onames={v: (f"O{v}" if O.children[v] else f"o{v}") for v in range(O.n)},
+                                          snames={v: (f"S{v}" if S.children[v] else f"s{v}") for v in range(S.n)})
     oname = {onode[v].name: v for v in O.leaves}
     sname = {snode[v].name: v for v in S.leaves}
     try:
@@ -187,6 +190,15 @@ def check_labelled_poly(algo, O, S, leafmap, leafsyn, costs, policy, session=Non
             lab = {oidx.get(k): (tuple(v) if is_ord else frozenset(v)) for k, v in out.syntenies.items()}
             if None in m or None in m.values() or None in lab:
                 return ("foreign_nodes", f"{algo}/{policy}: solution maps nodes that are not in its own trees"), len(outs), tr
+            # "maps every object-tree node to a species" must survive the name-keyed dictionary form the tool writes
+            d = out.to_dict()
+            if len(d["object_species"]) != O2.n or len(d["syntenies"]) != O2.n:
+                names = [n.name for n in out.input.object_tree.traverse()]
+                return ("incomplete_dict", f"{algo}/{policy}: dictionary form maps {len(d['object_species'])} and labels "
+                        f"{len(d['syntenies'])} of {O2.n} object nodes (node names {names})"), len(outs), tr
+            snames_out = [n.name for n in out.input.species_lca.tree.traverse()]
+            if len(set(snames_out)) != len(snames_out):
+                return ("incomplete_dict", f"{algo}/{policy}: species nodes of the solution's tree share names {snames_out}"), len(outs), tr
             bad = L.validity(algo, O2, S2, leafmap2, leafsyn2, m, lab)
             if bad:
                 return ("invalid", f"{algo}/{policy}: {bad}; {L.fmt_sol(m, lab)}"), len(outs), tr
